@@ -11,7 +11,7 @@ Definition enc_pos (p : npath) : list N := N.of_nat (length p) :: map N.of_nat p
 Definition enc_nodes (l : list nd) : list N := enc_list (fun x => enc_pos (fst x)) l.
 Definition enc_exn (e : exn) : N :=
   match e with XPathEvaluationError => 0 | AttributeError => 1 | AssertionError => 2 | TypeError => 3
-             | NotImplementedError => 4 | OtherError => 5 | ValueError => 6 | AmbiguousTreeError => 7 end%N.
+             | NotImplementedError => 4 | OtherError => 5 | ValueError => 6 | AmbiguousTreeError => 7 | InvalidOperation => 8 end%N.
 Definition enc_res (r : res (list nd)) : list N :=
   match r with
   | Ok l => 0%N :: enc_nodes l
